@@ -1,7 +1,7 @@
 (* C06 - Response manipulation is exact: hidden fields never leak, shape as configured.
    Only theorem statements, each closed by an exact lemma, and Print Assumptions. *)
 Require Import Verif.Common.Base Verif.Common.Json.
-Require Import Verif.Model.C06 Verif.Spec.C06 Verif.Proof.C06 Verif.Proof.C06_d Verif.Proof.C06_e Verif.Proof.C06_f Verif.Proof.C06_g Verif.Proof.C06_h Verif.Proof.C06_i Verif.Proof.C06_j.
+Require Import Verif.Model.C06 Verif.Spec.C06 Verif.Proof.C06 Verif.Proof.C06_d Verif.Proof.C06_e Verif.Proof.C06_f Verif.Proof.C06_g Verif.Proof.C06_h Verif.Proof.C06_i Verif.Proof.C06_j Verif.Proof.C06_k.
 Require Import Coq.Sorting.Permutation.
 
 (* ALLOW LIST = exactly the projection onto the listed dot-paths.  For every prefix-free
@@ -38,6 +38,65 @@ Proof.
   - intros [Hc _]. specialize (Hc eq_refl). vm_compute in Hc. discriminate.
 Qed.
 Print Assumptions C06_allow_not_prefix_free_refuted.
+
+(* ====== ALLOW LISTS THAT ARE NOT PREFIX-FREE: exact semantics, for every list ======
+   the dictionary newAllowlistingFilter builds from ANY list has exactly the paths of the
+   effective list as leaves (effective, Spec/C06.v: a path discards the earlier paths it is
+   comparable with) *)
+Theorem C06_allow_leaves_any : forall L, nonempty_paths L ->
+  forall l, leaf_of (build_allow L) l = true <-> In l (effective L).
+Proof. exact build_allow_leaves_any. Qed.
+Print Assumptions C06_allow_leaves_any.
+
+Theorem C06_effective_prefix_free : forall L, prefix_free (effective L).
+Proof. exact effective_prefix_free. Qed.
+Print Assumptions C06_effective_prefix_free.
+
+(* ... so for EVERY allow list the filter is exactly the projection onto its effective list *)
+Theorem C06_allow_exact_any : forall L d,
+  nonempty_paths L -> wfj (JObj d) = true ->
+  forall p, p <> [] ->
+  allow_exact_at (effective L) (JObj d) (JObj (allow_filter (build_allow L) d)) p.
+Proof. exact allow_exact_any. Qed.
+Print Assumptions C06_allow_exact_any.
+
+Theorem C06_allow_exact_cfg_any : forall c t,
+  allow c <> [] -> wfj (JObj t) = true ->
+  exists f, filter_stage c t = Ok f /\
+    forall p, p <> [] ->
+    allow_exact_at (effective (map split_dot (allow c))) (JObj t) (JObj f) p.
+Proof. exact allow_exact_cfg_any. Qed.
+Print Assumptions C06_allow_exact_cfg_any.
+
+(* a prefix-free list is its own effective list: C06_allow_exact is the special case *)
+Theorem C06_effective_of_prefix_free : forall L, nonempty_paths L -> prefix_free L ->
+  forall l, In l (effective L) <-> In l L.
+Proof. exact effective_of_prefix_free. Qed.
+Print Assumptions C06_effective_of_prefix_free.
+
+Theorem C06_model_meets_oracle_allow_any : forall L d,
+  nonempty_paths L -> wfj (JObj d) = true ->
+  allow_ok (effective L) d (allow_filter (build_allow L) d) = true.
+Proof. exact allow_ok_model_any. Qed.
+Print Assumptions C06_model_meets_oracle_allow_any.
+
+(* and why order independence needs the prefix-free hypothesis: the same paths in another
+   order give another output *)
+Theorem C06_allow_not_prefix_free_order_matters :
+  exists L L' d, (forall l, In l L <-> In l L') /\
+    allow_filter (build_allow L) d <> allow_filter (build_allow L') d.
+Proof. exact allow_not_prefix_free_order_matters. Qed.
+Print Assumptions C06_allow_not_prefix_free_order_matters.
+
+(* WHICH FORMATTER (NewEntityFormatter / newFlatmapFormatter): the flatmap formatter replaces the
+   manipulation of C06 exactly when the value under the proxy namespace of extra_config is an
+   object whose "flatmap_filter" is a list holding some object with a string "type"; every
+   other shape (absent, wrong type, empty list, unusable entries) leaves it in place *)
+Theorem C06_flatmap_selection : forall ns, uses_flatmap ns = true <->
+  exists e vs m t, ns = Some (JObj e) /\ lookup "flatmap_filter" e = Some (JArr vs) /\
+                   In (JObj m) vs /\ lookup "type" m = Some (JStr t).
+Proof. exact uses_flatmap_iff. Qed.
+Print Assumptions C06_flatmap_selection.
 
 (* DENY LIST = exactly the document minus the subtrees at the listed paths: at or below a
    listed path nothing is left; elsewhere absent stays absent, non-objects are unchanged,
@@ -196,7 +255,6 @@ Print Assumptions C06_rename_lookup_model.
    (spec_b additionally compares values with json_eqb, reflexive on well-formed values) *)
 Theorem C06_model_stages : forall c d,
   wfj (JObj d) = true ->
-  (allow c = [] \/ prefix_free (map split_dot (allow c))) ->
   exists f,
     format {| target := target c; allow := []; deny := []; mapping := []; group := "" |} d
       = Ok (target_spec c d) /\
@@ -216,12 +274,11 @@ Theorem C06_filter_preserves_wf : forall c t f,
 Proof. exact filter_stage_wf. Qed.
 Print Assumptions C06_filter_preserves_wf.
 
-(* ORACLE <-> MODEL, the boolean oracle itself: for every well-formed document and every
-   configuration whose allow list (if any) is prefix-free, the model's three observations
+(* ORACLE <-> MODEL, the boolean oracle itself: for every well-formed document and EVERY
+   configuration (allow lists that are not prefix-free included), the model's three observations
    (target only, target + filter, whole configuration) pass spec_b *)
 Theorem C06_model_meets_oracle : forall c d,
   wfj (JObj d) = true ->
-  (allow c = [] \/ prefix_free (map split_dot (allow c))) ->
   spec_b c d
     (obs_of (format {| target := target c; allow := []; deny := []; mapping := []; group := "" |} d))
     (obs_of (format {| target := target c; allow := allow c; deny := deny c; mapping := []; group := "" |} d))
@@ -357,4 +414,13 @@ Example C06_ex_end_to_end_overlap_last_wins :
                   {| b_cfg := {| target := ""; allow := []; deny := []; mapping := []; group := "" |};
                      b_coll := false; b_payload := JObj [("a", JNum "2")] |} ])
   = Some (Some (JNum "2")).
+Proof. vm_compute. reflexivity. Qed.
+Example C06_ex_effective :
+  effective (map split_dot ["a"; "a.b"; "c.d"; "c"; "e"; "e"]) = [["a"; "b"]; ["c"]; ["e"]].
+Proof. vm_compute. reflexivity. Qed.
+Example C06_ex_flatmap_not_selected :
+  uses_flatmap (Some (JObj [("flatmap_filter", JArr [JStr "del"; JObj [("args", JArr [JStr "a"])]])])) = false.
+Proof. vm_compute. reflexivity. Qed.
+Example C06_ex_flatmap_selected :
+  uses_flatmap (Some (JObj [("flatmap_filter", JArr [JObj [("type", JStr "del"); ("args", JArr [JStr "a"])]])])) = true.
 Proof. vm_compute. reflexivity. Qed.
